@@ -767,7 +767,7 @@ func c04bSameTree(a, b []*c04bNode, path string, pairs *[]c04bDeclPair) string {
 }
 
 // c04bUnbalanced: parentheses or square brackets that are not closed inside their declaration / prelude swallow the rest
-// of the style sheet into one component value (CSS Syntax 3 §5.4.8): parse-error territory.
+// of the style sheet (at least the following semicolon) into one component value (CSS Syntax 3 §5.4.8): parse-error territory.
 func c04bUnbalanced(src string) bool {
 	var stack []byte
 	for _, t := range c04bLex(src) {
@@ -785,6 +785,11 @@ func c04bUnbalanced(src string) bool {
 			stack = stack[:len(stack)-1]
 		case pcss.BadStringToken, pcss.BadURLToken:
 			return true
+		case pcss.SemicolonToken:
+			// a semicolon inside parentheses or square brackets: the closing bracket is missing where the author meant it
+			if len(stack) > 0 && stack[len(stack)-1] != '}' {
+				return true
+			}
 		}
 	}
 	return len(stack) != 0
